@@ -202,7 +202,16 @@ class Policy:
             e = st.exc
             if isinstance(e, ast.Call):
                 e = e.func
-            raise Deny(A.dotted(e) if e is not None else "?")
+            d_ = A.dotted(e) if e is not None else "?"
+            # `raise _builder(name)`: a module-level function whose every return builds one exception class
+            fb = self.ctx.repo.funcs.get("%s.%s" % (K.PROTO, d_)) if d_ and "." not in d_ else None
+            if fb is not None:
+                kinds = {A.dotted(r_.value.func) for r_ in A.walk(fb.node) if isinstance(r_, ast.Return) and
+                         isinstance(r_.value, ast.Call)}
+                rets_ = [r_ for r_ in A.walk(fb.node) if isinstance(r_, ast.Return)]
+                if len(kinds) == 1 and len(rets_) == sum(1 for r_ in rets_ if isinstance(r_.value, ast.Call)):
+                    d_ = kinds.pop()
+            raise Deny(d_)
         if isinstance(st, ast.Pass):
             return None
         raise AnalysisError("_check_attr: unsupported statement `%s`" % A.norm(st)[:60])
@@ -294,7 +303,8 @@ class Policy:
             if d and d.startswith("self.") and d.count(".") == 1:
                 f = self.ctx.repo.method(self.ctx.cls(K.CONN), d[5:])
                 if f is not None:
-                    r = self.call_function(f, ["SELF"] + [self.ev(a, env) for a in e.args])
+                    static = any(A.dotted(d_) == "staticmethod" for d_ in f.node.decorator_list)
+                    r = self.call_function(f, ([] if static else ["SELF"]) + [self.ev(a, env) for a in e.args])
                     return r[1] if r else None
             if isinstance(e.func, ast.Attribute) and e.func.attr == "get" and len(e.args) >= 1:
                 base = self.ev(e.func.value, env)
